@@ -15,6 +15,7 @@ type streamSpec struct {
 	Consumer string `json:"consumer"` // fast | slow | never | cancel@j (cancel the subscription after j values)
 	CancelAt int    `json:"cancel_at"`
 	Struct   bool   `json:"struct,omitempty"` // elements are structs with optional slice / map / pointer fields
+	Any      bool   `json:"any,omitempty"`    // the channel's element type is interface{}; every third element is an untyped nil
 }
 
 type streamObs struct {
@@ -72,7 +73,27 @@ func scenStream(specs []streamSpec, unary int, cause string, at int, subBuf int,
 		e.tr.ev("call.issue", tok, "sub")
 		var ch <-chan int
 		var err error
-		if sp.Struct {
+		if sp.Any {
+			var chA <-chan interface{}
+			chA, err = e.cl.SubAny(ctx, tok, sp.N)
+			if err == nil {
+				// adapter: the k-th element received must be the k-th element sent; anything else is passed on negated
+				ci := make(chan int)
+				ch = ci
+				go func() {
+					defer close(ci)
+					k := 0
+					for el := range chA {
+						if reflect.DeepEqual(el, anyElem(tok, k)) {
+							ci <- tok*1000 + k
+						} else {
+							ci <- -(tok*1000 + k) - 1
+						}
+						k++
+					}
+				}()
+			}
+		} else if sp.Struct {
 			var chS <-chan cpElem
 			chS, err = e.cl.SubS(ctx, tok, sp.N)
 			if err == nil {
@@ -106,7 +127,9 @@ func scenStream(specs []streamSpec, unary int, cause string, at int, subBuf int,
 				<-neverRelease
 			}
 			for v := range ch {
-				e.tr.ev("cons.recv", o.Token, v)
+				if !sp.Any {
+					e.tr.ev("cons.recv", o.Token, v)
+				}
 				mu.Lock()
 				o.Got = append(o.Got, v)
 				k := len(o.Got)
@@ -122,7 +145,9 @@ func scenStream(specs []streamSpec, unary int, cause string, at int, subBuf int,
 					time.Sleep(300 * time.Microsecond)
 				}
 			}
-			e.tr.ev("cons.closed", o.Token)
+			if !sp.Any {
+				e.tr.ev("cons.closed", o.Token)
+			}
 			mu.Lock()
 			o.Closed = true
 			mu.Unlock()
@@ -333,7 +358,7 @@ func streamOracle(specs []streamSpec, obs []*streamObs, cause string, unaryDone,
 		}
 		for j, v := range o.Got {
 			if v < 0 {
-				return fmt.Sprintf("stream %d: element %d arrived with a content the handler never sent (fields of other elements merged in)", o.Token, j)
+				return fmt.Sprintf("stream %d: element %d arrived with a content other than what the handler sent at that position (an element lost, or fields of other elements merged in)", o.Token, j)
 			}
 			if v != o.Token*1000+j {
 				return fmt.Sprintf("stream %d: element %d is %d, the handler sent %d (foreign, reordered or duplicated value)", o.Token, j, v, o.Token*1000+j)
@@ -380,6 +405,9 @@ func init() {
 			neverExtraStall = 5600 * time.Millisecond
 			emit(scenStream([]streamSpec{{N: 45, Consumer: "never"}, {N: 5, Consumer: "fast"}}, 1, "normal", 0, 0, false))
 			neverExtraStall = 0
+			// channels whose element type is an interface: untyped nil elements travel as null and arrive as nil
+			emit(scenStream([]streamSpec{{N: 10, Consumer: "fast", Any: true}}, 0, "normal", 0, 0, false))
+			emit(scenStream([]streamSpec{{N: 31, Consumer: "slow", Any: true}, {N: 12, Consumer: "fast"}}, 1, "normal", 0, 4, false))
 			// non-scalar elements (optional slice / map / pointer fields that differ from one element to the next)
 			emit(scenStream([]streamSpec{{N: 12, Consumer: "fast", Struct: true}}, 0, "normal", 0, 0, false))
 			emit(scenStream([]streamSpec{{N: 30, Consumer: "slow", Struct: true}, {N: 30, Consumer: "fast"}, {N: 9, Consumer: "fast", Struct: true}}, 1, "normal", 0, 4, false))
